@@ -15,7 +15,7 @@ IDLE_DEATH = 'die_idle'     # answers normally, then the idle worker is killed; 
 EXPECTED = {'equal': 'Equal', 'different': 'Different', 'player_raises': 'EqualizerFailure', 'extractor_raises': 'EqualizerFailure',
             'comparator_raises': 'EqualizerFailure', 'bare_status': 'Equal', 'spawn_child': 'Equal', 'exit': 'EqualizerFailure', 'hang': 'EqualizerFailure',
             'late': 'EqualizerFailure', 'hang_sigterm_ignored': 'EqualizerFailure', 'die_idle': 'Equal', 'dict_diff': 'Different',
-            'start_async_cassette': 'Equal', 'unpicklable_answer': 'EqualizerFailure', 'error_result': 'Different', 'leaves_timer': 'Equal'}
+            'start_async_cassette': 'Equal', 'unpicklable_answer': 'EqualizerFailure', 'error_result': 'Different', 'leaves_timer': 'Equal', 'exit0': 'EqualizerFailure', 'die_holding_event_lock': 'Equal'}
 
 
 def expected_duration(case):
@@ -23,7 +23,7 @@ def expected_duration(case):
     if case.get('tighten_after'):
         t = case['tighten_after']['timeout']
     n_slow = sum(1 for b in case['behaviours'] if b in ('hang', 'late', 'hang_sigterm_ignored'))
-    n_exit = sum(1 for b in case['behaviours'] if b in ('exit', 'die_idle')) + 2 * sum(1 for b in case['behaviours'] if b == 'leaves_timer')
+    n_exit = sum(1 for b in case['behaviours'] if b in ('exit', 'die_idle', 'exit0', 'die_holding_event_lock')) + 2 * sum(1 for b in case['behaviours'] if b == 'leaves_timer')
     if case.get('slow_start'):
         t += case['slow_start'] * 2
     return 3.0 + len(case['behaviours']) * case.get('slow_start', 0) + n_slow * (t + 2.5) + n_exit * 1.5 + 0.2 * len(case['behaviours'])
